@@ -241,10 +241,16 @@ func (c Conc) Scalar(v Value) (GoScalar, error) {
 			g.F = floatTable[p][pick(sym, 5)]
 			break
 		}
-		if len(v.A) != 8 {
+		switch len(v.A) {
+		case 8:
+			g.F = math.Float64frombits(binary.BigEndian.Uint64(Bytes(v.A)))
+		case 4: // narrow floats as read by a decoder (documented tolerance)
+			g.F = float64(math.Float32frombits(binary.BigEndian.Uint32(Bytes(v.A))))
+		case 2:
+			g.F = Float16(uint16(v.A[0])<<8 | uint16(v.A[1]))
+		default:
 			return g, fmt.Errorf("bad float payload %v", v.A)
 		}
-		g.F = math.Float64frombits(binary.BigEndian.Uint64(Bytes(v.A)))
 	case "string":
 		if c.Sym {
 			g.S = stringTable[p][pick(sym, 5)]
@@ -356,4 +362,37 @@ func (c Conc) Concretise(v Value) (Value, error) {
 		}
 		return AbstractScalar(g), nil
 	}
+}
+
+// Float16 converts an IEEE-754 binary16 bit pattern to float64 (independent of the library under test).
+func Float16(h uint16) float64 {
+	sign := 1.0
+	if h&0x8000 != 0 {
+		sign = -1.0
+	}
+	exp := int(h>>10) & 0x1f
+	frac := float64(h & 0x3ff)
+	switch exp {
+	case 0:
+		return sign * math.Ldexp(frac, -24)
+	case 31:
+		if frac == 0 {
+			return sign * math.Inf(1)
+		}
+		return math.NaN()
+	}
+	return sign * math.Ldexp(1+frac/1024, exp-15)
+}
+
+// HasUint reports whether a concrete value contains an unsigned integer above MaxInt64.
+func HasUint(v Value) bool {
+	if v.K == "int" && len(v.A) == 9 && v.A[0] == 0 && v.A[1] >= 128 {
+		return true
+	}
+	for _, c := range v.Vs {
+		if HasUint(c) {
+			return true
+		}
+	}
+	return false
 }
